@@ -35,7 +35,7 @@ package main
 //@   at State#1 after set gstate = ret0
 //@   at backpressureErrorCode#1 after set gcode = ret0
 //@   at AppendBatch#* before assert [C25.produce_append_only_when_healthy] gstate == "healthy"
-//@   at AppendBatch#* before stop
+//@   at AppendBatch#* before stop [C25]
 //@   at append#6 before assert [C25.produce_rejects_unhealthy_with_backpressure_code] gstate != "healthy" && len(arg1) == 1 && arg1[0].ErrorCode == gcode && arg1[0].ErrorCode != 0 && arg1[0].Partition == part.Partition
 //@   at append#1 before assert [C25.produce_no_ack_before_append] len(arg1) == 1 && arg1[0].ErrorCode != 0
 //@   at append#3 before assert [C25.produce_no_ack_before_append] len(arg1) == 1 && arg1[0].ErrorCode != 0
